@@ -311,6 +311,9 @@ def run(tier, seed, out, drv, facts):
         except ValueError:
             pass
         out.case(("pipe", cat), True)
+    # TypeVars made by typing_extensions (PEP 696: they carry `__default__`; on this interpreter they are ordinary
+    # typing.TypeVar instances): a default does not restrict anything
+    check_pep696_typevars(out, ucats[:6])
     # ---- scalars
     sspecs, smeta = [], []
     for cat in CATS:
@@ -327,6 +330,44 @@ def run(tier, seed, out, drv, facts):
     check_aliases(out)
 
 
+def check_pep696_typevars(out, cats):
+    try:
+        import typing_extensions as te
+    except ImportError:
+        out.count("no_typing_extensions")
+        return
+    import numpy as np
+
+    Duck, Other = usercats.Duck, usercats.Other
+    tvs = [
+        ("te.TypeVar('T')", lambda: te.TypeVar("T"), typing.Any),
+        ("te.TypeVar('T', default=np.ndarray)", lambda: te.TypeVar("T", default=np.ndarray), typing.Any),
+        ("te.TypeVar('T', default=Duck)", lambda: te.TypeVar("T", default=Duck), typing.Any),
+        ("te.TypeVar('T', bound=Duck, default=Duck)", lambda: te.TypeVar("T", bound=Duck, default=Duck), Duck),
+        ("te.TypeVar('T', Duck, Other, default=Other)", lambda: te.TypeVar("T", Duck, Other, default=Other), typing.Union[Duck, Other]),
+        ("typing.TypeVar('T')", lambda: typing.TypeVar("T"), typing.Any),
+    ]
+    for cat in cats:
+        c = makeimpl.cat_class(cat)
+        for name, mk, stands_for in tvs:
+            for dims in ("a", ""):
+                def built(aty):
+                    try:
+                        return c[aty, dims]
+                    except Exception as e:  # noqa: BLE001
+                        return "error:" + type(e).__name__
+                try:
+                    tv = mk()
+                except TypeError:
+                    continue
+                lhs, rhs = built(tv), built(stands_for)
+                lv, rv = vector(lhs), vector(rhs)
+                out.case(("pep696", cat, name, dims), True, sample={"cat": cat, "typevar": name, "dims": dims, "vector": lv[:40]})
+                if lv != rv:
+                    out.violation(f"typevar:pep696:{name.split('(')[0]}", f"{cat}[{name}, {dims!r}] gives {lv[:60]} on the probe values but what the TypeVar stands for "
+                                  f"({stands_for}) gives {rv[:60]}", {"pep696": name, "cat": cat, "dims": dims})
+
+
 def replay(rep, out, drv, facts):
     if "nest3" in rep:
         check_nest3_law(out, *rep["nest3"])
@@ -338,6 +379,8 @@ def replay(rep, out, drv, facts):
         check_union_law(out, rep["cat"], "replay", rep["aty"], rep["dims"])
     elif "alias" in rep:
         check_aliases(out)
+    elif "pep696" in rep:
+        check_pep696_typevars(out, [rep["cat"]])
     elif "spec" in rep:
         compare_model(out, drv, [rep["spec"]], "replay")
     out.case("replay", True, sample=rep)
